@@ -438,6 +438,81 @@ func c13(c *core.Ctx) {
 		for _, g := range core.CallsIn(gnw, c.Method(dn+".Manager", "GetDeputiesCount")) {
 			c.Check("GetNextMineWindow:GetDeputiesCount(nextHeight)", "value-flow", g.Common().Args[1] == gnw.Params[0], g.Pos(), "the miner's round length comes from the deputy set of the height being mined")
 		}
+		// miner side (GetMinerDistance) and verifier side (GetDeputyByDistance) decide "this is the first block of a term" with the same
+		// predicate functions: the sets of repository predicates called in their term-start tests are equal (a predicate that differs at one
+		// height makes every deputy mine in a slot the verifier gives to somebody else there)
+		predsOf := func(fn *ssa.Function) string {
+			set := map[string]bool{}
+			for _, b := range fn.Blocks {
+				ifi := ifOf(b)
+				if ifi == nil {
+					continue
+				}
+				sl := core.SliceShallow(ifi.Cond)
+				if !sl[fn.Params[1]] {
+					continue
+				}
+				for v := range sl {
+					if ci, ok := v.(*ssa.Call); ok {
+						if sf := core.StaticFn(ci); sf != nil && core.InRepo(sf) && sf.Signature.Results().Len() == 1 {
+							if bt, isB := sf.Signature.Results().At(0).Type().Underlying().(*types.Basic); isB && bt.Kind() == types.Bool {
+								set[core.FuncName(sf)] = true
+							}
+						}
+					}
+				}
+			}
+			var ks []string
+			for k := range set {
+				ks = append(ks, k)
+			}
+			sort.Strings(ks)
+			return strings.Join(ks, ",")
+		}
+		pm, pv := predsOf(c.Fn(dn+".Manager.GetMinerDistance")), predsOf(c.Fn(dn+".Manager.GetDeputyByDistance"))
+		c.Check("term-start-predicates:miner=verifier", "sibling-agreement", pm == pv && pm != "", c.Fn(dn+".Manager.GetDeputyByDistance").Pos(), "GetMinerDistance decides the term-start case with {%s}, GetDeputyByDistance with {%s}", pm, pv)
+		// no package-level variable is computed, at package initialisation, from a parameter the node's configuration may override later
+		// (params.TermDuration / InterimDuration are assigned by ConfigFromFile.Check): such a snapshot disagrees with the functions that
+		// read the live parameter
+		cfgGlobals := map[*ssa.Global]bool{}
+		for _, fn := range c.SrcFuncs {
+			if isTestHelper(c, fn) || fn.Name() == "init" {
+				continue
+			}
+			for _, b := range fn.Blocks {
+				for _, in := range b.Instrs {
+					if st, ok := in.(*ssa.Store); ok {
+						if g, isG := st.Addr.(*ssa.Global); isG && g.Pkg != nil && strings.HasSuffix(g.Pkg.Pkg.Path(), "/chain/params") {
+							cfgGlobals[g] = true
+						}
+					}
+				}
+			}
+		}
+		c.Floor("configurable-params", len(cfgGlobals), 2)
+		nInit := 0
+		var inits []*ssa.Function
+		for _, sp := range c.SSAPkg {
+			if f := sp.Func("init"); f != nil && f.Blocks != nil {
+				inits = append(inits, f)
+			}
+		}
+		sort.Slice(inits, func(i, j int) bool { return inits[i].Pkg.Pkg.Path() < inits[j].Pkg.Pkg.Path() })
+		for _, fn := range inits {
+			nInit++
+			for _, b := range fn.Blocks {
+				for _, in := range b.Instrs {
+					ld, ok := in.(*ssa.UnOp)
+					if !ok || ld.Op != token.MUL {
+						continue
+					}
+					if g, isG := ld.X.(*ssa.Global); isG && cfgGlobals[g] && fn.Pkg != g.Pkg {
+						c.Check("init-snapshot/"+g.Name()+"@"+core.RelPkg(fn), "determinism", false, ld.Pos(), "package %s reads params.%s while it is initialised; the configuration assigns that parameter later, so the value kept differs from what the functions reading params.%s see", core.RelPkg(fn), g.Name(), g.Name())
+					}
+				}
+			}
+		}
+		c.Floor("package-initialisers-scanned", nInit, 20)
 		// the parent's miner is consulted only outside the term-start / height-1 case, in both rotation functions
 		snap := c.FuncObj(dn + ".IsRewardBlock")
 		for _, spec := range []string{dn + ".Manager.GetMinerDistance", dn + ".Manager.GetDeputyByDistance"} {
